@@ -14,7 +14,7 @@
 From RV Require Import Base.
 From RV.Model Require Import Utf8 Indexer CodePointSet Insn Fold IR Unfold ClassSet.
 From RV.Spec Require Import Spec IRSem.
-From RV.Proofs Require Import Closure ClassSetProofs Utf8Facts Utf8Valid ClassAtom SeqSim.
+From RV.Proofs Require Import QuantSim Closure ClassSetProofs Utf8Facts Utf8Valid ClassAtom SeqSim.
 
 Theorem c01_class_atom_is_the_reference : forall foldf unicode utf16 pre post c icase e f f' G caps,
   wf_text (pre ++ c :: post) -> vwf e = true -> sfree e = true ->
@@ -154,6 +154,51 @@ Theorem c01_fragment_closed_under_lookahead : forall foldf unicode utf16 cs eqcl
   gden foldf unicode utf16 cs eqclass r n P kr kn ->
   gden foldf unicode utf16 cs eqclass (RLook true neg r) (NLookaround neg false sg eg n) (lookP neg P) (S kr) (S kn).
 Proof. exact lookahead_gden. Qed.
+
+(* quantifiers over the fragment.  r? / r?? : the optional quantifier over a factor of the fragment (reference:
+   RepeatMatcher with min 0, max 1 and the empty check; code: the Loop node of the parser with its iteration counter,
+   entry position and empty-iteration rejection) is a factor of the fragment again *)
+Theorem c01_fragment_closed_under_optional : forall foldf unicode utf16 cs eqclass, wf_text cs ->
+  forall kr kn r n P g gs egs, gden foldf unicode utf16 cs eqclass r n P kr kn ->
+  gden foldf unicode utf16 cs eqclass (RQuant r 0 (Some 1%nat) g gs gs) (NLoop n 0%N (Some 1%N) g egs egs) (optP g P) (S kr) (S (S kn)).
+Proof. intros foldf unicode utf16 cs eqclass Hw. exact (optional_gden foldf unicode utf16 cs Hw eqclass). Qed.
+
+(* r* / r*? : the star over a factor whose results never move left (monoP; every builder of the fragment keeps it, next
+   theorem) is a factor of the fragment again, greedy and lazy: both sides compute starP, by induction on the distance
+   to the end of the text; the fuel bounds grow by the length of the text; the text is shorter than usize::MAX *)
+Theorem c01_fragment_closed_under_star : forall foldf unicode utf16 cs eqclass, wf_text cs -> (N.of_nat (S (S (length cs))) < USIZE_MAX)%N ->
+  forall kr kn r n P g gs egs, gden foldf unicode utf16 cs eqclass r n P kr kn -> monoP cs P ->
+  gden foldf unicode utf16 cs eqclass (RQuant r 0 None g gs gs) (NLoop n 0%N None g egs egs) (starP cs g P)
+       (kr + S (length cs)) (kn + S (S (length cs))) /\ monoP cs (starP cs g P).
+Proof. intros foldf unicode utf16 cs eqclass Hw Hs. exact (star_gden foldf unicode utf16 cs Hw eqclass Hs). Qed.
+
+(* r+ / r+? : one mandatory iteration, on which the empty-iteration rejection does not apply, then the star *)
+Theorem c01_fragment_closed_under_plus : forall foldf unicode utf16 cs eqclass, wf_text cs -> (N.of_nat (S (S (length cs))) < USIZE_MAX)%N ->
+  forall kr kn r n P g gs egs, gden foldf unicode utf16 cs eqclass r n P kr kn -> monoP cs P ->
+  gden foldf unicode utf16 cs eqclass (RQuant r 1 None g gs gs) (NLoop n 1%N None g egs egs) (plusP cs g P)
+       (kr + S (S (length cs))) (kn + S (S (S (length cs)))) /\ monoP cs (plusP cs g P).
+Proof. intros foldf unicode utf16 cs eqclass Hw Hs. exact (plus_gden foldf unicode utf16 cs Hw eqclass Hs). Qed.
+
+Theorem c01_fragment_is_monotone : forall cs,
+  (forall t, monoP cs (posD cs t)) /\ (forall cond, monoP cs (assertP cond)) /\ (forall neg P, monoP cs (lookP neg P)) /\
+  (forall g P, monoP cs P -> monoP cs (optP g P)) /\ (forall Ps, Forall (monoP cs) Ps -> monoP cs (catP Ps)) /\
+  (forall Ps, Forall (monoP cs) Ps -> monoP cs (fun i => gchain Ps [i])).
+Proof.
+  intros cs. split; [|split; [|split; [|split; [|split]]]].
+  - intros t. apply posD_mono.
+  - intros cond. apply assertP_mono.
+  - intros neg P. apply lookP_mono.
+  - intros g P H. apply optP_mono. exact H.
+  - intros Ps H. apply catP_mono. exact H.
+  - intros Ps H. apply term_mono. exact H.
+Qed.
+
+(* the premises are met and the conclusion is the computed one: a* and a*? on "aab", both sides *)
+Example c01_star_example : let cs := [[97]; [97]; [98]]%N in
+  es_results (fun x => fold_code_point x true) unfold_char (map dec cs) 9 (RQuant (RChar 97 false) 0 None true 0 0) Fwd (0%nat, []) = Some [(2%nat, []); (1%nat, []); (0%nat, [])] /\
+  ir_results (utf8_indexer fold_code_point) true false (concat cs) 9 (NLoop (NChar 97) 0%N None true 0 0) true (0%nat, []) = Some [(2%nat, []); (1%nat, []); (0%nat, [])] /\
+  starP cs true (posD cs (fun d => (d =? 97)%N)) 0 = [2; 1; 0]%nat /\ starP cs false (posD cs (fun d => (d =? 97)%N)) 0 = [0; 1; 2]%nat.
+Proof. vm_compute. repeat split. Qed.
 
 (* the three kinds of atoms *)
 Theorem c01_atoms : forall foldf utf16 cs, wf_text cs ->
